@@ -36,11 +36,11 @@ def execute(sc):
     viol = [v for v in r["violations"] if v["oracle"] in OWN]
     if obs["status"] == "exc":
         # every generated composition is valid: run() must return
-        comp = None
+        comp = ctx = None
         for v in r["violations"]:
             if v["oracle"] in ("update-raises", "update-raises-other"):
-                comp = v.get("comp")
-        viol.append({"oracle": "run-raises", "kind": obs["exc"], "comp": comp or "",
+                comp, ctx = v.get("comp"), v.get("shared_ctx")
+        viol.append({"oracle": "run-raises", "kind": obs["exc"], "comp": comp or "", "shared_ctx": ctx,
                      "msg": f"run() of a valid composition raised {obs['exc']}: {obs['exc_msg']}"})
     return {"violations": viol, "digest": r["digest"], "faults": r["faults"], "probes": r["probes"],
             "nontrivial": obs["status"] == "ok" and obs["n_updates"] >= 3,
